@@ -76,9 +76,18 @@ class World:
 
     def _start(self, op):
         """start one operation -> (future, completion function)"""
-        if op[0] == "map":
+        if op[0] in ("map", "mapsame"):
             self.counter += 1
             logical = self.base + 0x10000 * (self.counter - 1)
+            if op[0] == "mapsame":
+                # the logical address of a live mapping of the other
+                # direction (inputs and outputs at one address, as a
+                # combined read/write datagram wants them)
+                other = [l for l in self.live if l[1] != op[1]
+                         and not any(m[0] == l[0] and m[1] == op[1]
+                                     for m in self.live)]
+                if other:       # else: like a plain map
+                    logical = other[-1][0]
             cm = self.term.map_fmmu(logical, op[1])
             fut = asyncio.ensure_future(cm.__aenter__())
 
@@ -132,22 +141,26 @@ class World:
     def check(self):
         """the invariant; returns None or (expected, observed, what, kf)"""
         regs = self.fmmu_regs()
-        slots = {}
+        slots = []
         for logical, write, cm, slot in self.live:
             off, size = (0x1000, 6) if write else (0x1100, 4)
             hit = [i for i, r in enumerate(regs)
                    if r == (logical, size, off, 2 if write else 1, 1)]
+            if self.faults and len(hit) > 1 and slot in hit:
+                # an injected fault left an ended mapping's registers
+                # behind; they may equal those of a new mapping at the same
+                # address: the mapping's own FMMU is the one it was given
+                hit = [slot]
             if len(hit) != 1:
-                # which live mapping destroyed it?
                 kf = None
-                others = [l for l in self.live if l[0] != logical]
                 if any(l[1] for l in self.live):
                     kf = KF     # a write mapping is involved
-                return ("live mapping %#x programmed in exactly one active "
-                        "FMMU" % logical, dict(regs=regs, hit=hit),
+                return ("live mapping %#x (%s) programmed in exactly one "
+                        "active FMMU" % (logical, "write" if write else
+                                         "read"), dict(regs=regs, hit=hit),
                         "a live mapping lost its FMMU", kf)
-            slots[logical] = hit[0]
-        if len(set(slots.values())) != len(slots):
+            slots.append(hit[0])
+        if len(set(slots)) != len(slots):
             return ("distinct FMMUs", slots, "two live mappings share an FMMU",
                     None)
         # the master's slot table: live mappings hold exactly their slots,
@@ -155,14 +168,14 @@ class World:
         # if the switch-off datagram was not processed)
         table = list(self.term.fmmu_used)
         want = [None] * len(table)
-        for logical, write, cm, slot in self.live:
-            want[slots[logical]] = logical
+        for (logical, write, cm, slot), at in zip(self.live, slots):
+            want[at] = logical
         if table != want:
             return (want, table, "slot table: an ended mapping still holds "
                     "its FMMU / a live one lost it", None)
         active = [i for i, r in enumerate(regs) if r[4]]
-        if self.faults == 0 and sorted(active) != sorted(slots.values()):
-            return ("only live mappings active: %s" % sorted(slots.values()),
+        if self.faults == 0 and sorted(active) != sorted(slots):
+            return ("only live mappings active: %s" % sorted(slots),
                     active, "an ended mapping's FMMU is still active / a "
                     "foreign one was switched off", KF if any(
                         l[1] for l in self.live) else None)
@@ -195,16 +208,24 @@ def work(conf, res):
         for hist in frontier:
             w, _ = build(n_fmmu, hist)
             nlive = len(w.live)
+            live_keys = [(l[0], l[1]) for l in w.live]
             w.close()
             basic = [("map", False), ("map", True)] + \
                 [("unmap", j) for j in range(nlive)]
+            for wr in (False, True):
+                if any(d != wr and (a, wr) not in live_keys
+                       for a, d in live_keys):
+                    basic.append(("mapsame", wr))
             ops = list(basic)
             if sum(1 for o in hist if is_faulted(o)) < work.faults:
-                ops += [("map", False, True), ("map", True, True)] + \
+                ops += [(o[0], o[1], True) for o in basic
+                        if o[0] in ("map", "mapsame")][2:] + \
+                    [("map", False, True), ("map", True, True)] + \
                     [("unmap", j, True) for j in range(nlive)]
             if sum(1 for o in hist if o[0] == "par") < work.pars:
                 ops += [("par", a, b) for a in basic for b in basic
-                        if not (a[0] == b[0] == "unmap" and a[1] == b[1])]
+                        if not (a[0] == b[0] == "unmap" and a[1] == b[1])
+                        and not (a[0] == b[0] == "mapsame" and a[1] == b[1])]
             for op in ops:
                 h2 = hist + (op,)
                 w, results = build(n_fmmu, h2)
